@@ -326,6 +326,14 @@ def c08_d(ctx: Ctx):
     regs = [n for n in scfg.stmt_nodes() if n.kind == "stmt" and any(isinstance(c, ast.Call) and isinstance(c.func, ast.Attribute) and c.func.attr == "_register" for c in walk_no_nested(n.ast))]
     resets = {n.id for n in scfg.stmt_nodes() if n.kind == "stmt" and any(isinstance(c, ast.Call) and isinstance(c.func, ast.Attribute) and c.func.attr == "reset" for c in walk_no_nested(n.ast))}
     for rg in regs:
+        # not reachable through an exception edge out of the re-key (e.g. from a `finally`)
+        exc_succ = [b for r in resets for (b, k, _f) in scfg.succ.get(r, []) if k in "xu"]
+        via_exc = exc_succ and rg.id in (scfg.reachable(exc_succ, kinds="nxu") | set(exc_succ))
+        if via_exc:
+            out.append(ctx.viol(R, st, rg.ast, "the new state point is registered also when the re-key raised (the registration is reachable through the exceptional exit of reset(), e.g. a "
+                                "`finally`): after a refused assignment (DestinationExistsError) self.id is still the old id, so the cache maps the old id to a state point that does not "
+                                "hash to it, open_job(id=old) serves it and update_cache() persists it", construct=st.qual + "|register-after-failed-rekey"))
+            continue
         w = scfg.must_pass_before(rg.id, resets, kinds="n")
         if w is None and resets:
             out.append(ctx.ok(R, st, rg.ast, "the new state point is registered under self.id only after the re-key changed the id"))
@@ -352,8 +360,12 @@ def c08_d(ctx: Ctx):
 @rule("C08-e")
 def c08_e(ctx: Ctx):
     """The state point cache and the other per-project / per-job state are instance state: no mutable object bound in a class body is modified through an instance."""
-    from .lints import no_shared_mutable_class_state
-    return no_shared_mutable_class_state(ctx, "C08-e", ["signac.project:Project", "signac.job:Job", "signac.project:JobsCursor", "signac.job:_StatePointDict"],
+    from .lints import no_shared_mutable_class_state, binary_data_io
+    io = binary_data_io(ctx, "C08-e", ["signac.project:Project._read_cache", "signac.project:Project.update_cache", "signac.project:Project._get_statepoint_from_workspace",
+                                       "signac.project:Project._build_index"],
+                        "so a cache / state point containing non-ASCII text written by one session cannot be read (UnicodeDecodeError) or is read differently by a session running under another "
+                        "locale: the same id then has a state point with and none without the cache file")
+    return io + no_shared_mutable_class_state(ctx, "C08-e", ["signac.project:Project", "signac.job:Job", "signac.project:JobsCursor", "signac.job:_StatePointDict"],
                                          "a project (or the project carried by a job) restored by pickle / copy.deepcopy with a reduced state would share one state point cache with every "
                                          "other such project, and open_job(id=...) would answer with the state point of a job that exists only in another project")
 
